@@ -73,6 +73,16 @@ def _default_for(rng: random.Random, typ: str, nullable: bool) -> tuple[object, 
 
 def random_field(rng: random.Random, used: set[str], versions: list[int], flex_from: int | None, depth: int, tags: set[int], constructs: list[str],
                  common: dict[str, dict], type_names: set[str] | None = None) -> dict:
+    f = _random_field(rng, used, versions, flex_from, depth, tags, constructs, common, type_names)
+    if f.pop("_drop_versions", False) and f.get("versions") == f.get("taggedVersions") and f.get("nullableVersions", f["versions"]) == f["versions"]:
+        # upstream (3.5+) leaves `versions` out for fields that only ever exist tagged: it then defaults to taggedVersions
+        f.pop("versions")
+        constructs.append("taggedVersions:without-versions")
+    return f
+
+
+def _random_field(rng: random.Random, used: set[str], versions: list[int], flex_from: int | None, depth: int, tags: set[int], constructs: list[str],
+                  common: dict[str, dict], type_names: set[str] | None = None) -> dict:
     type_names = set() if type_names is None else type_names
     lo = rng.choice(versions)
     hi_candidates = [v for v in versions if v >= lo]
@@ -188,7 +198,7 @@ def random_field(rng: random.Random, used: set[str], versions: list[int], flex_f
                  fields=[random_field(rng, sub_used, fv, flex_from, depth + 1, sub_tags, constructs,
                                       {k: c for k, c in common.items() if interpret.parse_range(c["versions"])[0] <= fv[0]} if rng.random() < 0.5 else {}, type_names)
                          for _ in range(nf)])
-        if not any(interpret.in_range(g["versions"], v) for g in f["fields"] for v in fv):
+        if not any(interpret.in_range(g.get("versions", g.get("taggedVersions")), v) for g in f["fields"] for v in fv):
             f["fields"][0]["versions"] = f["versions"]
             f["fields"][0].pop("taggedVersions", None)
             f["fields"][0].pop("tag", None)
@@ -239,6 +249,8 @@ def _tag(rng: random.Random, f: dict, fv: list[int], flexible_fv: list[int], fle
     elif fv[0] < start:
         constructs.append("taggedVersions:subset-of-versions")
     constructs.append("taggedVersions")
+    if f.get("versions") == f["taggedVersions"] and rng.random() < 0.3:
+        f["_drop_versions"] = True  # (done when the field is complete, see random_field)
 
 
 def random_definition(rng: random.Random, used_api: set[str], kind: str | None = None) -> list[dict]:
